@@ -8,6 +8,7 @@ interleaved part is C10's model (every schedule).
 -/
 import HttpServeModel.Lemmas.PipeFaults
 import HttpServeModel.Lemmas.Wakeup
+import HttpServeModel.Lemmas.PipeFaultsGz
 
 namespace HS
 
@@ -60,6 +61,44 @@ theorem C11_abort_wakes_consumer (cap : Nat) (hc : 0 < cap) (prog : List PCmd) (
     let c := (Conc.init cap prog).run sched
     c.parked = some w → c.woken = false → deliverable c.s.sh → ∃ nx, c.s.stage = .wake w nx :=
   wake_after_publish cap hc prog sched w
+
+/-- The same four clauses for GZIP writers (the encoder's pushed bytes being a parameter of each
+operation): delivered is a prefix of what the encoder pushed in successful operations; ... -/
+theorem C11_gz_delivered_prefix (cap : Nat) (hc : 0 < cap) (ops : List AnyOp)
+    (hops : ∀ op ∈ ops, op.gzAny) :
+    let h := (Hist.init cap .gz).run ops
+    h.delivered <+: h.accepted :=
+  gz_abort_prefix cap hc ops hops
+
+/-- ... after `abort` the next terminal event is an error, not end-of-stream, then the end; ... -/
+theorem C11_gz_abort_error_next (cap : Nat) (hc : 0 < cap) (ops : List AnyOp)
+    (hops : ∀ op ∈ ops, op.gzAny) (w : Nat) :
+    let h := (Hist.init cap .gz).run ops
+    h.sys.bw = .gz → h.sys.readerAlive = true → (∀ r ∈ h.polls, r.isTerminal = false) →
+    let h1 := h.step (.p .abort)
+    readerIsEndStream h1.sys.sh = false ∧
+    (h1.sys.cop (.poll w)).2 = .polled .err ∧
+    ((h1.sys.cop (.poll w)).1.cop (.poll w)).2 = .polled .end_ :=
+  gz_abort_error_next cap hc ops hops w
+
+/-- ... every later write and flush fails; ... -/
+theorem C11_gz_abort_dead (cap : Nat) (hc : 0 < cap) (ops more : List AnyOp)
+    (hops : ∀ op ∈ ops, op.gzAny) (hmore : ∀ op ∈ more, op.gzAny) (pushed : Bytes) (acc : Nat) :
+    let h := ((Hist.init cap .gz).run (ops ++ [.p .abort])).run more
+    (h.sys.pop (.gzWrite pushed acc)).2.1 ≠ .ok ∧ (∀ n, (h.sys.pop (.gzWrite pushed acc)).2.1 ≠ .wrote n) ∧
+    (h.sys.pop (.gzFlush pushed)).2.1 ≠ .ok :=
+  gz_abort_dead cap hc ops more hops hmore pushed acc
+
+/-- ... and once the body has been dropped the queue is released, the writer holds at most one
+chunk, every flush fails and after the first failure everything fails. -/
+theorem C11_gz_disconnect_signalled (cap : Nat) (hc : 0 < cap) (ops more : List AnyOp)
+    (hops : ∀ op ∈ ops, op.gzAny) (hmore : ∀ op ∈ more, op.gzAny) (pushed : Bytes) (acc : Nat) :
+    let h := ((Hist.init cap .gz).run (ops ++ [.c .drop])).run more
+    h.sys.inflight = [] ∧ h.sys.buf.length ≤ cap ∧
+    (h.sys.bw = .gz → (h.sys.pop (.gzFlush pushed)).2.1 = .err) ∧
+    (h.sys.bw = .dead → (h.sys.pop (.gzFlush pushed)).2.1 = .err ∧
+       (h.sys.pop (.gzWrite pushed acc)).2.1 = .err) :=
+  gz_disconnect_signalled cap hc ops more hops hmore pushed acc
 
 /-- Non-vacuity: F8's scenario on the repaired tree — body dropped, then write + flush fail. -/
 example :
